@@ -3,6 +3,7 @@ package props
 import (
 	"bytes"
 	"context"
+	"encoding/json"
 	"errors"
 	"fmt"
 	"net/http"
@@ -479,6 +480,8 @@ func C11(r *h.Run) {
 		checkSub("unary_split", "response-trailer", nil, resT, res.trailer)
 	}
 
+	errorMetaWritten(r, rng, true, "metadata/error-meta-written")
+
 	// ---- binary header helpers ----
 	for a := 0; a < 256; a++ {
 		b := []byte{byte(a)}
@@ -540,4 +543,169 @@ func (i hdrIcpt) WrapStreamingClient(next connect.StreamingClientFunc) connect.S
 }
 func (i hdrIcpt) WrapStreamingHandler(next connect.StreamingHandlerFunc) connect.StreamingHandlerFunc {
 	return next
+}
+
+// errorContainer returns the map a handler writes an error's metadata into, as it left the
+// handler: the response headers (unary Connect), the HTTP trailers (gRPC), the trailer frame
+// (gRPC-Web) or the metadata of the end-of-stream message (Connect streaming).
+func errorContainer(proto string, unary bool, rec *httptest.ResponseRecorder) (http.Header, bool) {
+	hdr, trailer := splitTrailers(rec)
+	switch {
+	case proto == "connect" && unary:
+		return hdr, true
+	case proto == "connect":
+		flags, payload, ok := lastFrameFlags(rec.Body.Bytes())
+		if !ok || flags&2 == 0 {
+			return nil, false
+		}
+		var end struct {
+			Metadata http.Header `json:"metadata"`
+		}
+		if err := json.Unmarshal(payload, &end); err != nil {
+			return nil, false
+		}
+		if end.Metadata == nil {
+			end.Metadata = http.Header{}
+		}
+		return end.Metadata, true
+	case proto == "grpc":
+		if len(trailer) == 0 {
+			return hdr, true // trailers-only
+		}
+		return trailer, true
+	default:
+		flags, payload, ok := lastFrameFlags(rec.Body.Bytes())
+		if !ok || flags&0x80 == 0 {
+			return hdr, true // trailers-only
+		}
+		out := http.Header{}
+		for _, line := range strings.Split(string(payload), "\r\n") {
+			kv := strings.SplitN(line, ": ", 2)
+			if len(kv) == 2 {
+				out.Add(kv[0], kv[1])
+			}
+		}
+		return out, true
+	}
+}
+
+// errorMetaWritten (C11 with model cases, C02 for its direct oracle) ties Header.v's merge_metadata (the model of mergeMetadataHeaders, whose
+// list of names is extracted from the source) to what real handlers write: an error whose
+// metadata mixes application keys, the names that describe an HTTP message, and near misses of
+// those names, on a call whose handler also set trailers of its own under some of the keys.
+func errorMetaWritten(r *h.Run, rng *h.Rng, modelCase bool, failKey string) {
+	names := []string{"Content-Type", "Content-Length", "Content-Encoding", "Host", "User-Agent", "Trailer", "Date",
+		"Content-Typ", "Content-Types", "X-Content-Type", "Content-Language", "Dates", "Hosted", "Accept-Encoding", "Server",
+		"X-Upstream", "X-Err-Key", "X-Err-Multi", "Trailers", "User-Agents", "Content-Disposition", "Vary", "Etag"}
+	token := func() string {
+		b := make([]byte, 1+rng.Intn(8))
+		for i := range b {
+			b[i] = "abcdefghijklmnopqrstuvwxyz0123456789"[rng.Intn(36)]
+		}
+		return string(b)
+	}
+	for i := 0; i < r.N(48, 600); i++ {
+		proto := []string{"connect", "grpc", "grpcweb"}[i%3]
+		kind := []string{"unary", "server"}[rng.Intn(2)]
+		meta := http.Header{}
+		for j, nk := 0, 2+rng.Intn(6); j < nk; j++ {
+			k := names[rng.Intn(len(names))]
+			for x, nv := 0, 1+rng.Intn(2); x < nv; x++ {
+				meta.Add(k, token())
+			}
+		}
+		own := http.Header{}
+		if kind == "server" {
+			for j, nk := 0, rng.Intn(3); j < nk; j++ {
+				// the handler's own trailers: application names only, some of them also in the error
+				k := names[15+rng.Intn(3)]
+				own.Add(k, token())
+			}
+		}
+		run := func(withMeta bool) (*httptest.ResponseRecorder, any) {
+			mkErr := func() error {
+				e := connect.NewError(connect.CodeNotFound, errors.New("relayed"))
+				if withMeta {
+					for k, vs := range meta {
+						e.Meta()[k] = append([]string(nil), vs...)
+					}
+				}
+				return e
+			}
+			var handler *connect.Handler
+			if kind == "unary" {
+				handler = connect.NewUnaryHandler("/verif.Svc/M", func(context.Context, *connect.Request[h.Raw]) (*connect.Response[h.Raw], error) {
+					return nil, mkErr()
+				}, connect.WithCodec(h.ToyCodec{}))
+			} else {
+				handler = connect.NewServerStreamHandler("/verif.Svc/M", func(_ context.Context, _ *connect.Request[h.Raw], s *connect.ServerStream[h.Raw]) error {
+					for k, vs := range own {
+						for _, v := range vs {
+							s.ResponseTrailer().Add(k, v)
+						}
+					}
+					_ = s.Send(&h.Raw{B: []byte("m")})
+					return mkErr()
+				}, connect.WithCodec(h.ToyCodec{}))
+			}
+			cfg := envCfg{Proto: proto}
+			unary := kind == "unary" && proto == "connect"
+			body := h.Frame(0, []byte("q"))
+			if unary {
+				body = []byte("q")
+			}
+			req := httptest.NewRequest(http.MethodPost, "/verif.Svc/M", bytes.NewReader(body))
+			req.ProtoMajor, req.ProtoMinor = 2, 0
+			req.Header.Set("Content-Type", cfg.contentType(kind == "unary"))
+			rec := httptest.NewRecorder()
+			p := safely(func() { handler.ServeHTTP(rec, req) })
+			return rec, p
+		}
+		in := map[string]any{"proto": proto, "kind": kind, "error_metadata": meta, "handler_trailers": own}
+		r.Eval("error_meta_written", fmt.Sprint(proto, kind, meta, own))
+		twinRec, p1 := run(false)
+		rec, p2 := run(true)
+		if p1 != nil || p2 != nil {
+			r.Fail(h.Failure{Key: "metadata/panic", Family: "error_meta_written", What: fmt.Sprint("panic: ", p1, p2), Input: in})
+			continue
+		}
+		unary := kind == "unary" && proto == "connect"
+		twin, ok1 := errorContainer(proto, unary, twinRec)
+		obs, ok2 := errorContainer(proto, unary, rec)
+		if !ok1 || !ok2 {
+			r.Fail(h.Failure{Key: "metadata/no-error-container", Family: "error_meta_written", What: "the response has no readable end-of-stream message / trailer frame", Input: in, Actual: h.Hex(rec.Body.Bytes())})
+			continue
+		}
+		var keys []string
+		seen := map[string]bool{}
+		for _, m := range []http.Header{meta, own} {
+			for k := range m {
+				if !seen[k] {
+					seen[k] = true
+					keys = append(keys, k)
+				}
+			}
+		}
+		sort.Strings(keys)
+		ckeys := make([]string, len(keys))
+		for j, k := range keys {
+			ckeys[j] = h.CoqStr(k)
+		}
+		r.Sample("error_meta_written", map[string]any{"in": in, "container": obs, "container_without_error_metadata": twin})
+		if modelCase {
+			r.Case("error_meta_written", fmt.Sprintf("ErrMetaWritten %s %s %s %s", coqHmap(twin, keys), coqHmap(meta, keys), h.CoqList(ckeys), coqHmap(obs, keys)),
+				map[string]any{"in": in, "impl_container": obs, "impl_container_without_error_metadata": twin})
+		}
+		// the property itself, decided directly: an application key of the error's metadata arrives
+		// after the handler's own values, in order
+		for k, vs := range meta {
+			if k == "Content-Type" || k == "Content-Length" || k == "Content-Encoding" || k == "Host" || k == "User-Agent" || k == "Trailer" || k == "Date" {
+				continue // names that describe the HTTP message a header travels in: not metadata of the call
+			}
+			want := append(append([]string(nil), own.Values(k)...), vs...)
+			if got := obs.Values(k); !sublist(want, got) {
+				r.Fail(h.Failure{Key: failKey, Family: "error_meta_written", What: "an application key of the error's metadata is not written after the handler's own values, unchanged and in order", Input: in, Expected: map[string]any{k: want}, Actual: got})
+			}
+		}
+	}
 }
